@@ -3,7 +3,8 @@
      n_prime     the group order is prime
      yodd_neg    negation flips the parity of y
      chal_range  the challenge is a scalar
-     chal_inj    the Fiat–Shamir challenge is injective in (enc R, enc P, m)   (idealised hash) *)
+   Collisions of the Fiat–Shamir challenge are not excluded by hypothesis: the alteration theorems
+   conclude that the two challenges are equal (a collision of the hash), which is the written coincidence set. *)
 From Coq Require Import ZArith Znumtheory Lia List Bool Zdiv Morphisms Setoid.
 From Coq Require Import ZifyBool.
 Import ListNotations.
@@ -19,7 +20,6 @@ Section SchnorrProofs.
   Hypothesis n_prime : prime n.
   Hypothesis yodd_neg : forall a, 0 < a < n -> yodd (n - a) = negb (yodd a).
   Hypothesis chal_range : forall a b m, 0 <= chal a b m < n.
-  Hypothesis chal_inj : forall a b m a' b' m', chal a b m = chal a' b' m' -> a = a' /\ b = b' /\ m = m'.
 
   Notation "a == b" := (eqm n a b) (at level 70).
   Notation sadd := (sadd n).
@@ -133,7 +133,8 @@ Section SchnorrProofs.
     (* a changed message is rejected *)
     Theorem gen_message_changed : forall sg pk m m',
       gen_verify neg_resp encR encP sg pk m = true ->
-      gen_verify neg_resp encR encP sg pk m' = true -> m = m'.
+      gen_verify neg_resp encR encP sg pk m' = true ->
+      chal (encR (g_k (s_R sg))) (encP (g_k pk)) m = chal (encR (g_k (s_R sg))) (encP (g_k pk)) m'.
     Proof.
       intros sg pk m m' H H'. apply gen_accept_iff in H, H'.
       destruct H as (Hpk & _ & _ & _ & He). destruct H' as (_ & _ & _ & _ & He').
@@ -146,8 +147,7 @@ Section SchnorrProofs.
           rewrite He'. apply eqm_ring. ring.
         - transitivity ((g_k (s_R sg) + g_k pk * e) - g_k (s_R sg)); [apply eqm_ring; ring|].
           rewrite He'. apply eqm_ring. ring. }
-      apply (eqm_small n) in Hee; [|apply chal_range|apply chal_range].
-      apply chal_inj in Hee. tauto.
+      apply (eqm_small n) in Hee; [|apply chal_range|apply chal_range]. exact Hee.
     Qed.
 
     (* a changed response is rejected *)
@@ -311,7 +311,8 @@ Section SchnorrProofs.
   (* a changed message is rejected *)
   Theorem bip_message_changed : forall sg pk m m',
     0 < g_k (s_R sg) < n -> 0 < g_k pk < n ->
-    bip_verify sg pk m = true -> bip_verify sg pk m' = true -> m = m'.
+    bip_verify sg pk m = true -> bip_verify sg pk m' = true ->
+    chal (xo (g_k (s_R sg))) (xo (even_y (g_k pk))) m = chal (xo (g_k (s_R sg))) (xo (even_y (g_k pk))) m'.
   Proof.
     intros sg pk m m' HR Hpk H H'. apply bip_accept_iff in H, H'.
     destruct H as (_ & _ & _ & _ & H). destruct H' as (_ & _ & _ & _ & H'). cbv zeta in H, H'.
@@ -336,8 +337,7 @@ Section SchnorrProofs.
         rewrite Hsame in A. rewrite A in B.
         transitivity (s_s sg - (s_s sg - P * e)); [apply eqm_ring; ring|].
         rewrite B. apply eqm_ring. ring. }
-    apply (eqm_small n) in Hee; [|apply chal_range|apply chal_range].
-    apply chal_inj in Hee. tauto.
+    apply (eqm_small n) in Hee; [|apply chal_range|apply chal_range]. exact Hee.
   Qed.
 
   (* a signature whose recomputed commitment has odd y is rejected whatever its x-coordinate *)
@@ -350,3 +350,28 @@ Section SchnorrProofs.
     destruct H as (_ & Hy' & _). congruence.
   Qed.
 End SchnorrProofs.
+
+(* Mina: the generic verifier with x-only R and full P in the challenge, even-y nonces *)
+Definition mina_accept_iff n M chal Hp := gen_accept_iff n M chal Hp false (xo n) (full n) (fun _ => false).
+Definition mina_message_changed n M chal Hp Hr := gen_message_changed n M chal Hp Hr false (xo n) (full n) (fun _ => false).
+
+(* ---- a concrete instance of the section hypotheses (order 7, parities of the toy curve
+        y^2 = x^3 + 7 over F_13, challenge (a + 2b + 3m) mod 7) ------------------------------------- *)
+Definition toy_par (k : Z) : bool := match k with 1 => true | 2 => true | 4 => true | _ => false end.
+Definition toy_chal (a b m : Z) : Z := (a + 2 * b + 3 * m) mod 7.
+
+Lemma schnorr_toy_instance :
+  (forall a, 0 < a < 7 -> toy_par (7 - a) = negb (toy_par a)) /\
+  (forall a b m, 0 <= toy_chal a b m < 7) /\
+  (exists sg, bip_sign 7 toy_par Z toy_chal 3 2 5 = Some sg /\ bip_verify 7 toy_par Z toy_chal sg (mk_gelt true 3) 5 = true) /\
+  (exists sg, gen_sign 7 Z toy_chal true (full 7) (full 7) toy_par 3 2 5 = Some sg) /\
+  (exists sg, mina_sign 7 toy_par Z toy_chal 3 2 4 = Some sg /\ mina_verify 7 Z toy_chal sg (mk_gelt true 3) 4 = true).
+Proof.
+  split; [|split; [|split; [|split]]].
+  - intros a Ha. assert (Hc : a = 1 \/ a = 2 \/ a = 3 \/ a = 4 \/ a = 5 \/ a = 6) by lia.
+    destruct Hc as [H|[H|[H|[H|[H|H]]]]]; subst a; reflexivity.
+  - intros. unfold toy_chal. apply Z.mod_pos_bound. lia.
+  - eexists. split; vm_compute; reflexivity.
+  - eexists. vm_compute. reflexivity.
+  - eexists. split; vm_compute; reflexivity.
+Qed.
